@@ -110,6 +110,10 @@ func serve(handler opFunc) {
 	in := bufio.NewReaderSize(os.Stdin, 1<<20)
 	out := bufio.NewWriterSize(os.Stdout, 1<<20)
 	defer out.Flush()
+	// the library prints diagnostics ("Unknown rule: ...") on standard output: keep them out of the protocol
+	if null, err := os.OpenFile(os.DevNull, os.O_WRONLY, 0); err == nil {
+		os.Stdout = null
+	}
 	for {
 		line, err := in.ReadString('\n')
 		if len(line) > 0 {
